@@ -5,6 +5,8 @@ EXPLANATION = ("Function contracts on the real tf_pwa line-shape code (breit_wig
                "|theta_L(i sqrt z)|^2 computed in exact integers from the reverse Bessel polynomial; grid evaluations are reported separately as bounded.")
 ASSUMPTIONS = []
 
+EXPLANATION += (' Gounaris-Sakurai helper functions against their textbook forms and the pole clauses of GS (L = 0..2) proved.')
+
 from vt.contracts import tables_ground  # noqa: F401,E402
 from vt.contracts import lineshape  # noqa: F401,E402
 from vt.contracts import iface_lineshape  # noqa: F401,E402
